@@ -57,7 +57,7 @@ def okStep (s : St) (w : World) (op : Op) : Bool :=
       (!n.term || o.term || !isAssigned s (resolve s o) o.id) &&
       (!w.resvd.contains o.id || (resolve s n == resolve s o && n.req == o.req)) &&
       (!(resolve s o == dflt && resolve s n == dflt) || (n.label == o.label && n.ns == o.ns && n.req == o.req)))
-  | .pdel p => w.find p.id == some p && atHome s p
+  | .pdel p => w.find p.id == some p
   | .resv p => w.find p.id == some p && atHome s p && !p.node && !p.term
   | .unresv p => w.find p.id == some p && atHome s p && w.resvd.contains p.id && !p.node
   | .migrate => true
@@ -89,8 +89,6 @@ def okOrderFrom (s : St) (final : St) (seenPod : Bool) : List Op → Bool
     (match op with
      | .padd p => resolve s p == resolve final p
      | .replace => !seenPod
-     -- a migration tick in the middle of the delivery finds nothing to move
-     | .migrate => s.cache.all (fun e => e.q != dflt || resolve s e.obj == dflt)
      | _ => true) &&
     okOrderFrom (step s op) final (seenPod || (match op with | .padd _ => true | _ => false)) ops
 
@@ -99,7 +97,9 @@ def isDelivery (live : St) (w : World) (d : List Op) : Bool :=
   -- every quota object is delivered, and its handler (or a ReplaceQuotas AFTER it reached the store) ran
   live.store.all (fun q => (d.contains (.qput q) || d.contains (.qstore q)) && (run {} d).known.contains q.name) &&
   w.alive.all (fun p => d.contains (.padd p)) &&
-  okOrderFrom {} (run {} d) false d
+  okOrderFrom {} (run {} d) false d &&
+  -- no quota object is named like the built-in groups (0 = no label, 1 = default, 2 = system; webhook rule)
+  live.store.all (fun q => decide (3 ≤ q.name))
 
 /-! ### from-scratch specification of the ledger -/
 
